@@ -140,6 +140,10 @@ Proof.
   unfold cnt in X. cbv beta in X. rewrite H1, H2 in X. lia.
 Qed.
 
+Lemma live_upd_notin : forall (f : nat -> wrec) k r l, ~ In k l ->
+  length (filter (fun w => is_live (wpcf (upd f k r w))) l) = length (filter (fun w => is_live (wpcf (f w))) l).
+Proof. intros. apply (cnt_upd_notin wrec (fun r => is_live (wpcf r)) f k r l H). Qed.
+
 Lemma live_new : forall (f : nat -> wrec) k r l, ~ In k l -> is_live (wpcf r) = true ->
   length (filter (fun w => is_live (wpcf (upd f k r w))) (k :: l)) = S (length (filter (fun w => is_live (wpcf (f w))) l)).
 Proof.
@@ -163,11 +167,136 @@ Proof.
   all: rewrite ?live_upd_same by (cbn [wpcf]; repeat match goal with E : wpcf _ = _ |- _ => rewrite E end; reflexivity).
   all: try (split; assumption).
   all: split; [try pool_inv | try (intros NP; exfalso; eapply NP; eauto; fail)].
-  all: try match goal with E : pl _ = PLive ?p |- _ => pose proof (I1 p E) as (J1 & J2 & J3) end.
-  all: try match goal with E : lock _ = None |- _ => pose proof (AT E) as TD; rewrite TD in * end.
+  all: try match goal with E : pl _ = PLive ?p |- _ => first [pose proof (I1 p E) as (J1 & J2 & J3) | pose proof (I1 p eq_refl) as (J1 & J2 & J3)] end.
+  all: try match goal with E : lock _ = None |- _ => first [pose proof (AT E) as TD | pose proof (AT eq_refl) as TD]; rewrite TD in * end.
   all: outs; subst; cbn [pstarted pmax p_set_items p_set_head p_set_tail p_set_idle p_set_done p_set_started p_set_shut] in *.
   all: unfold die_effs; cbn [ncreate filter is_create length app] in *.
   all: try (rewrite ncreate_postw).
   all: try (repeat split; lia).
-  all: show.
-Admitted.
+  all: rewrite ?live_upd_same by (cbn [wpcf]; repeat match goal with E : wpcf _ = _ |- _ => rewrite E end; reflexivity).
+  all: try match goal with
+       | E : wpcf (wk ?s ?n) = _ |- context [upd (wk ?s) ?n ?r] =>
+         assert (INW : In n (wids s)) by (apply T5; rewrite E; discriminate);
+         pose proof (live_upd_die (wk s) n r (wids s) ND INW) as LD; rewrite E in LD;
+         specialize (LD eq_refl eq_refl)
+       end.
+  all: rewrite ?ncreate_app; ifs; cbn [ncreate filter is_create length app] in *.
+  all: try (repeat split; lia).
+  all: try (intros q Q; rewrite E5 in Q; inversion Q; subst q; repeat split; lia).
+  all: try match goal with H : is_live (wpcf (upd _ ?k _ ?k)) = _ |- _ => rewrite upd_same in H; try discriminate H end.
+  all: try match goal with H : _ && negb (memb ?n0 (tids _)) = true |- _ =>
+         apply andb_true_iff in H; destruct H as (_ & NM); apply negb_true_iff, memb_false in NM;
+         assert (NW : ~ In n0 (wids s)) by (intros X; apply T4 in X; tauto) end.
+  all: try (rewrite (live_upd_notin (wk s) _ _ (wids s) NW) in * ).
+  - (* the pool is freed: it had no threads *)
+    intros _. destruct (AL _ E3) as (p & P). destruct (I1 p P) as (J1 & _).
+    assert (FF : In FFree (todo s)) by (rewrite E5; now left).
+    destruct (F FF p P) as (J & _). cbn in J1. lia.
+  - intros q Q. destruct (I1 q Q) as (J1 & J2 & J3). unfold ncreate. repeat split; lia.
+  - intros NP. exfalso. destruct (AL _ E3) as (p & P). now apply (NP p).
+  - assert (TD : todo s = []).
+    { destruct (lock s) eqn:L; auto. destruct (AL _ L); congruence. }
+    rewrite TD. rewrite I2 by (intros q; discriminate). apply andb_true_iff in E7. destruct E7 as (_ & M).
+    apply Z.leb_le in M. cbn. lia.
+Qed.
+
+Ltac use_pool I :=
+  match goal with E : pl _ = PLive ?p |- _ => pose proof (I p E) end.
+
+Lemma Widle_step : forall s l s', TB s -> Widle s -> step s l = Some s' -> Widle s'.
+Proof.
+  intros s l s' T I H.
+  step_inv H; hold_facts; cs_facts; destruct T as (_ & _ & _ & T4 & T5 & _); unfold Widle in *; ssimp; ifs; ssimp; try assumption.
+  all: try pool_inv; try use_pool I; outs; subst; cbn [pidle p_set_items p_set_head p_set_tail p_set_idle p_set_done p_set_started p_set_shut] in *.
+  all: try assumption.
+  all: try (intros q Q; pose proof (I q Q) as IQ).
+  all: intros x IN.
+  all: repeat match goal with
+       | H : In _ (rem _ _) |- _ => apply rem_In in H; destruct H
+       | H : In _ (_ :: _) |- _ => destruct H; subst
+       | H : In _ [] |- _ => destruct H
+       end.
+  all: try match goal with H : forall w, In w (pidle ?p) -> _ , IN : In ?x (pidle ?p) |- _ => pose proof (H x IN) as (IA & IB) end.
+  all: unfold upd; repeat match goal with |- context [Nat.eqb ?a ?b] => destruct (Nat.eqb a b) eqn:?; bools; subst end; cbn [wpcf].
+  all: try (split; auto; fail).
+  all: try (split; [now right | auto]; fail).
+  all: try congruence.
+  all: try (destruct IB as [IB | IB]; congruence).
+  - exfalso. apply memb_false in H0. apply H0. apply T4 in IA. tauto.
+  - split; auto. apply T5. rewrite E9. discriminate.
+  - split; auto. apply T5. rewrite E9. discriminate.
+Qed.
+
+Lemma WU_step : forall s l s', (lock s = None -> todo s = []) -> WU s -> step s l = Some s' -> WU s'.
+Proof.
+  intros s l s' AT I H.
+  step_inv H; hold_facts; cs_facts; unfold WU in *; ssimp; ifs; ssimp; try assumption.
+  all: try match goal with E : lock _ = None |- _ => pose proof (AT E) as TD end.
+  all: outs; subst; unfold die_effs.
+  all: intros x X.
+  all: try (rewrite TD in *).
+  all: try match goal with E : todo _ = _ |- _ => rewrite E in I end.
+  all: simpl in X; rewrite ?in_app_iff in X; ifs; simpl in X.
+  all: try (exfalso; intuition (try discriminate; try congruence); fail).
+  all: try (assert (IX : lock s = Some x /\ wpcf (wk s x) = WDead) by (apply I; simpl; intuition (try congruence));
+            destruct IX as (IX1 & IX2)).
+  all: unfold upd; repeat match goal with |- context [Nat.eqb ?a ?b] => destruct (Nat.eqb a b) eqn:?; bools; subst end; cbn [wpcf].
+  all: try (split; auto; congruence).
+  all: try (split; congruence).
+  all: repeat match type of X with context [if ?b then _ else _] => destruct b end; simpl in X.
+  all: try (exfalso; intuition (try discriminate; try congruence); fail).
+  all: try (intuition (try discriminate);
+            repeat match goal with
+            | H : FUnreg _ = FUnreg _ |- _ => inversion H; subst; clear H
+            | H : Some _ = Some _ |- _ => inversion H; subst; clear H
+            end; try congruence; fail).
+  all: try match goal with E : todo _ = _ |- _ => rewrite E in X; simpl in X end.
+  all: try (exfalso; intuition (try discriminate; try congruence); fail).
+  all: exfalso; destruct X as [X | (X & _)]; apply in_map_postw in X; destruct X; discriminate.
+Qed.
+
+Lemma W2_step : forall s l s', TB s -> (lock s = None -> todo s = []) -> APN s -> WU s -> Widle s -> W2 s -> step s l = Some s' -> W2 s'.
+Proof.
+  intros s l s' T AT PN U WI I H.
+  step_inv H; hold_facts; cs_facts; destruct T as (_ & _ & _ & T4 & T5 & _);
+    unfold W2, wit, kick_due in *; ssimp; ifs; ssimp; try assumption.
+  all: try pool_inv; try use_pool I; try use_pool WI; outs; subst;
+       cbn [pidle p_set_items p_set_head p_set_tail p_set_idle p_set_done p_set_started p_set_shut] in *.
+  all: try assumption.
+  all: try (intros q Q; pose proof (I q Q) as IQ).
+  all: intros x IN LV.
+  all: unfold upd in *;
+       repeat match goal with
+       | |- context [Nat.eqb ?a ?b] => destruct (Nat.eqb a b) eqn:?; bools; subst
+       | H : context [Nat.eqb ?a ?b] |- _ => destruct (Nat.eqb a b) eqn:?; bools; subst
+       end; cbn [wpcf wkicked wkpend active_pc is_live] in *.
+  all: try discriminate.
+  all: try (right; left; reflexivity).
+  all: try match goal with E : lock _ = None |- _ => first [pose proof (AT E) as TD | pose proof (AT eq_refl) as TD] end.
+  all: repeat match goal with H : In _ (_ :: _) |- _ => destruct H; subst end.
+  all: try match goal with IQ : forall w, In w (wids _) -> _, IN : In ?x (wids _) |- _ =>
+         destruct (IQ x IN LV) as [A | [A | (A & [B | B])]] end.
+  all: try match goal with B : In _ (todo _), E : todo _ = _ |- _ => rewrite E in B; simpl in B end.
+  all: repeat match goal with
+       | B : False |- _ => destruct B
+       | B : _ = _ \/ _ |- _ => destruct B as [B | B]; [inversion B; subst |]
+       end.
+  all: try (left; assumption).
+  all: try (left; apply rem_In; split; assumption).
+  all: try (left; right; assumption).
+  all: try (right; left; assumption).
+  all: try (right; right; split; [assumption | left; assumption]).
+  all: try (right; right; split; [assumption | right; assumption]).
+  all: try (right; right; split; [assumption | right; simpl; auto; fail]).
+  all: try (right; right; split; [assumption | right; apply in_or_app; right; simpl; auto]; fail).
+  all: try (right; right; split; [assumption || reflexivity | left; reflexivity]; fail).
+  all: try (left; now left).
+  all: try (left; right; apply rem_In; split; assumption).
+  all: try (right; right; split; [reflexivity | right; apply in_or_app; right; simpl; auto]; fail).
+  all: try (right; right; split; [reflexivity | right; simpl; auto]; fail).
+  - congruence.
+  - congruence.
+  - exfalso. assert (X : wpc_of s w0 = WDead) by (apply U; left; rewrite E5; now left). unfold wpc_of in X. congruence.
+  - congruence.
+  - exfalso. destruct (PN E5) as (X & _). rewrite X in IN. destruct IN.
+Qed.
